@@ -158,7 +158,7 @@ fn mt_model(args: &Args) {
 	let mut rec = Rec::new(&args.out, "c19mt");
 	let scratch = args.out.join("scratch-mt");
 	let _ = std::fs::remove_dir_all(&scratch);
-	let rounds = if args.thorough { 40 } else { 2 };
+	let rounds = if args.thorough { 20 } else { 2 };
 	let per_thread = if args.thorough { 400 } else { 80 };
 	for round in 0..rounds {
 		for v2 in [false, true] {
@@ -490,7 +490,7 @@ fn harvest(ctx_out: &mut Vec<(Hist, &'static TestKeysInterface)>, n_payments: us
 fn mup_model(args: &Args) {
 	let mut rec = Rec::new(&args.out, "c19mup");
 	let mut rng = Rng::new(args.seed);
-	let n_pay = if args.thorough { 9 } else { 4 };
+	let n_pay = if args.thorough { 7 } else { 4 };
 	let hists: Vec<(Hist, &'static TestKeysInterface)> = match guarded(AssertUnwindSafe(|| { let mut h = vec![]; harvest(&mut h, n_pay, &mut Rng::new(args.seed ^ 0x55)); h })) {
 		Ok(h) => h,
 		Err(p) => { eprintln!("network scenario panicked: {}", p); rec.notes.insert("rule".into(), format!("scenario set-up failed: {}", p)); rec.finish(); std::process::exit(3); },
@@ -504,7 +504,7 @@ fn mup_model(args: &Args) {
 		let ctx = Ctx { keys: *keys_h, idcache: Mutex::new(HashMap::new()) };
 		sanity.push(format!("hist{}: {} updates ids {:?}..{:?} closes={}", hi, h.updates.len(), h.updates.first().map(|u| u.update_id), h.updates.last().map(|u| u.update_id), h.closes));
 		if h.updates.len() < 6 { rec.discarded += 1; continue; }
-		let n_scripts = if args.thorough { 6 } else { 2 } * args.scale as usize;
+		let n_scripts = if args.thorough { 4 } else { 2 } * args.scale as usize;
 		for si in 0..n_scripts {
 			// --- draw a script
 			let start_at = if si == 0 { 0 } else { rng.below(4) as usize };
@@ -531,7 +531,8 @@ fn mup_model(args: &Args) {
 					if let Some(o) = run_script(&ctx, &mut rec, &{ run_id += 1; format!("r{}", run_id) }, h, &s2, start_at, n, &nof, &stale, None, &format!("N{}:junkname", n)) { total_lines += o.lines; }
 				}
 				// --- every crash point x lazy-delete subsets x one failing op
-				let points: Vec<u64> = if args.thorough || t <= 48 { (0..=t).collect() } else { let mut v: Vec<u64> = (0..48).map(|_| rng.below(t + 1)).collect(); v.push(0); v.push(t); v.sort(); v.dedup(); v };
+				let cap: u64 = if args.thorough { 150 } else { 48 };
+				let points: Vec<u64> = if t <= cap { (0..=t).collect() } else { let mut v: Vec<u64> = (0..cap).map(|_| rng.below(t + 1)).collect(); v.push(0); v.push(t); v.sort(); v.dedup(); v };
 				for &c in &points {
 					let all: Vec<u64> = (0..c).collect();
 					let variants: Vec<Faults> = vec![
@@ -548,7 +549,7 @@ fn mup_model(args: &Args) {
 			}
 		}
 	}
-	rec.notes.insert("rule".into(), "real monitors + ChannelMonitorUpdates harvested from a 2-node network (payments both ways, a pending HTLC, force close), replayed offline into MonitorUpdatingPersister for maximum_pending_updates in {0,1,2,3,5,10}: scripts mix update / update-persisted-as-full / chain-sync full persists / cleanup_stale_updates / legacy u64::MAX updates / archive / an out-of-order update / pre-existing stale and junk update keys; then every crash point of the emitted op sequence (sampled to 48 points in the quick tier when longer) x {all lazy deletes applied, none, random subset, one failing op with/without effect}; every persister call, recovery and final key set is a case".into());
+	rec.notes.insert("rule".into(), "real monitors + ChannelMonitorUpdates harvested from a 2-node network (payments both ways, a pending HTLC, force close), replayed offline into MonitorUpdatingPersister for maximum_pending_updates in {0,1,2,3,5,10}: scripts mix update / update-persisted-as-full / chain-sync full persists / cleanup_stale_updates / legacy u64::MAX updates / archive / an out-of-order update / pre-existing stale and junk update keys; then every crash point of the emitted op sequence (all of them up to 48 [quick] / 150 [thorough] ops, a PRNG sample of that many beyond) x {all lazy deletes applied, none, random subset, one failing op with/without effect}; every persister call, recovery and final key set is a case".into());
 	rec.notes.insert("histories".into(), sanity.join("; "));
 	rec.notes.insert("lines".into(), total_lines.to_string());
 	rec.finish();
